@@ -88,8 +88,13 @@ def judge_layering(labels, layers, algorithm, layer_width, density, spacing, stu
     else:
         budget = F(density) * F(layer_width)
         info["budget"] = float(budget)
-        band = budget * F(1, 10**9)  # the code sums widths in floats: at the boundary either outcome is acceptable
-        if abs(req - budget) <= band:
+        # the code sums widths in floats: at the boundary either outcome is acceptable - unless every quantity is a small
+        # dyadic rational (multiples of 2**-10 below 2**30), for which float sums and the product are exact in any order
+        vals = [F(n.width) for n in labels] + [F(spacing), F(layer_width), budget]
+        exact = all((v * 1024).denominator == 1 and abs(v) < 2**30 for v in vals) and F(float(density) * float(layer_width)) == budget
+        info["exact_arithmetic"] = exact
+        band = 0 if exact else budget * F(1, 10**9)
+        if not exact and abs(req - budget) <= band:
             info["class"] = "at-budget-boundary"
         elif req <= budget:
             info["class"] = "fits"
